@@ -33,7 +33,7 @@ ASSUMPTIONS = [
     "the PostgreSQL dialect is executed on the SQLite 3.40 surrogate (no PostgreSQL server in the sandbox)",
 ]
 
-N = {"quick": 176, "thorough": 1600}
+N = {"quick": 176, "thorough": 3200}
 NB = {"quick": 16, "thorough": 64}
 BOOLS = list(itertools.product([False, True], repeat=4))  # use_with, use_cte_elim, annotate, initial_commas
 
